@@ -32,6 +32,7 @@ import (
 	"time"
 
 	"github.com/prometheus/client_golang/prometheus"
+	"github.com/prometheus/prometheus/model/labels"
 	"pgregory.net/rapid"
 
 	"github.com/cloudflare/pint/internal/promapi"
@@ -234,7 +235,10 @@ func (s *system) ask(q Question, wave int) (string, error) {
 		if err != nil {
 			return "", err
 		}
-		res := fmt.Sprintf("%s %s", r.URI, r.Series.Ranges.String())
+		res := r.URI + "\n" + renderRanges(r.Series.Ranges)
+		if strings.HasPrefix(name, "g") {
+			return res, nil // no window-determined series in a gappy answer; judged against the server's answers at the end
+		}
 		es, ee := q.expectedRange()
 		var got []string
 		ok := false
@@ -269,6 +273,86 @@ func (s *system) ask(q Question, wave int) (string, error) {
 		return fmt.Sprintf("%s %+v", r.URI, r.Metadata), nil
 	}
 	return "", fmt.Errorf("unknown question kind %q", q.Kind)
+}
+
+// renderRanges: one line per range, "labels start end", sorted - the full content of a range result.
+func renderRanges(r promapi.MetricTimeRanges) string {
+	lines := make([]string, 0, len(r))
+	for _, x := range r {
+		lines = append(lines, fmt.Sprintf("%s %d %d", x.Labels.String(), x.Start.Unix(), x.End.Unix()))
+	}
+	sort.Strings(lines)
+	return strings.Join(lines, "\n")
+}
+
+// expectedRanges folds what the server actually answered for the slices of one range question into the result
+// a caller must hold (same rendering as renderRanges): per label set, runs of samples one step apart become
+// [first, last+step-1s]. ok=false: some slice of the question has no recorded successful answer.
+func (s *system) expectedRanges(q Question, wave int) (string, bool) {
+	name := q.Name
+	if wave > 0 {
+		name = fmt.Sprintf("%s_w%d", q.Name, wave)
+	}
+	answers := s.g.RangeAnswers()
+	keyOf := map[slice]string{}
+	for _, p := range s.g.Requests() {
+		if p.Endpoint != "query_range" || p.Question != name {
+			continue
+		}
+		ps, _ := strconv.ParseInt(p.Start, 10, 64)
+		pe, _ := strconv.ParseInt(p.End, 10, 64)
+		keyOf[evaluated(slice{ps, pe})] = p.Key
+	}
+	times := map[string][]int64{}
+	for _, sl := range q.slices() {
+		// the server may have been asked a slice with another end that evaluates the very same points
+		// (same start, same last grid point): that IS the same question
+		series, ok := answers[keyOf[evaluated(sl)]]
+		if !ok {
+			return "", false
+		}
+		for _, ms := range series {
+			k := labels.FromMap(ms.Labels).String()
+			times[k] = append(times[k], ms.Times...)
+		}
+	}
+	var lines []string
+	for k, ts := range times {
+		sort.Slice(ts, func(i, j int) bool { return ts[i] < ts[j] })
+		for i := 0; i < len(ts); {
+			j := i
+			for j+1 < len(ts) && ts[j+1]-ts[j] <= rangeStep {
+				j++
+			}
+			lines = append(lines, fmt.Sprintf("%s %d %d", k, ts[i], ts[j]+rangeStep-1))
+			i = j + 1
+		}
+	}
+	sort.Strings(lines)
+	return strings.Join(lines, "\n"), true
+}
+
+// evaluated normalises a slice to the points it evaluates: [start, last grid point <= end].
+func evaluated(sl slice) slice {
+	return slice{sl.start, sl.start + (sl.end-sl.start)/rangeStep*rangeStep}
+}
+
+// checkAgainstServer: a successful range caller's full result must be what the server answered for its window.
+func (s *system) checkAgainstServer(q Question, wave int, res string) error {
+	want, ok := s.expectedRanges(q, wave)
+	if !ok {
+		return fmt.Errorf("%w: a caller of %v (wave %d) returned a result although the server never answered all slices of that window; caller holds:\n%s", errWrongAnswer, q, wave, res)
+	}
+	got := res
+	if i := strings.Index(res, "\n"); i >= 0 {
+		got = res[i+1:]
+	} else {
+		got = ""
+	}
+	if got != want {
+		return fmt.Errorf("%w: %v (wave %d): the server's answers for the slices of that window add up to\n%s\nbut a caller holds\n%s", errWrongAnswer, q, wave, want, got)
+	}
+	return nil
 }
 
 func (s *system) startCaller(qi, wave int) {
@@ -583,6 +667,11 @@ func (s *system) finalChecks() error {
 		if c.err != nil || c.pan != nil {
 			continue
 		}
+		if q := s.c.Questions[c.q]; q.Kind == "range" {
+			if err := s.checkAgainstServer(q, c.wave, c.res); err != nil {
+				return err
+			}
+		}
 		key := k{c.q, c.wave}
 		if prev, ok := seen[key]; ok && prev != c.res {
 			return fmt.Errorf("two callers of %v received different results:\n  %s\n  %s", s.c.Questions[c.q], prev, c.res)
@@ -672,6 +761,7 @@ func genQuestions(t *rapid.T, sharing bool) []Question {
 	pool := []Question{
 		{Kind: "query", Name: "q1"}, {Kind: "query", Name: "q2"},
 		{Kind: "range", Name: "r1"}, {Kind: "range", Name: "r1"}, {Kind: "range", Name: "r1"}, {Kind: "range", Name: "r2"},
+		{Kind: "range", Name: "g1"}, {Kind: "range", Name: "g2"}, // answers differ per slice and never merge, see fakeprom.RangeAnswer
 		{Kind: "config"}, {Kind: "flags"},
 		{Kind: "metadata", Name: "m1"}, {Kind: "metadata", Name: "m2"},
 	}
@@ -689,12 +779,15 @@ func genQuestions(t *rapid.T, sharing bool) []Question {
 				lo = 3 // two multi-slice windows of one expression would have whole slices in common
 			}
 			v := rapid.IntRange(lo, hi).Draw(t, fmt.Sprintf("window%d", i))
+			if strings.HasPrefix(q.Name, "g") {
+				v = 0 // whole slices from 00:00 only
+			}
 			if v <= 2 {
 				fullWindow[q.Name] = true
 			}
 			switch v {
 			case 0, 1, 2:
-				q.Slices = rapid.SampledFrom([]int{1, 2, 3, 5}).Draw(t, fmt.Sprintf("slices%d", i))
+				q.Slices = rapid.SampledFrom([]int{1, 2, 3, 5, 2, 3}).Draw(t, fmt.Sprintf("slices%d", i))
 			case 3:
 				q.Len = 3600 // [0, 1h]   one request
 			case 4:
@@ -1119,6 +1212,13 @@ wait:
 	})
 	for _, key := range rkeys {
 		rs := results[key]
+		if q := c.Questions[key.q]; q.Kind == "range" && !boundaryTainted(key.q) && !tainted(q) {
+			for _, r := range rs {
+				if err := s.checkAgainstServer(q, key.wave, r); err != nil {
+					return res, err
+				}
+			}
+		}
 		for _, r := range rs[1:] {
 			if r != rs[0] {
 				if boundaryTainted(key.q) {
